@@ -57,6 +57,36 @@ def gen_cfg(rng, i, quick):
     return c
 
 
+def machine_cfgs(seed, quick):
+    """configurations whose machine parameters are NOT at their defaults (own PRNG: the base stream keeps its draws):
+    the product {BendingRadius not given, three explicit radii} x {alpha0 default, another alpha0, two explicit synchrotron
+    frequencies}, each with a CSR wake so that the Meter/Second/Turn/Volt factors AND the absolute wake strength are
+    compared with what /Info/Parameters implies.  An explicit radius changes V0, hence V_eff, f_s (alpha0 route), the
+    natural bunch length and dt by 1e-4 .. 3e-2 - far above the 1e-6 the unit oracles allow."""
+    import random
+    rng = random.Random(seed * 7919 + 101)
+    out = []
+    routes = [dict(), dict(alpha0=2e-3), dict(fs=30e3), dict(fs=61e3)]
+    bends = [None, 1.5, 5.559, 8.0]
+    combos = [(b, r) for b in bends for r in routes]
+    if quick:
+        # every explicit radius with every route; the default radius with two of them
+        combos = [(b, r) for (b, r) in combos if b is not None] + [(None, routes[1]), (None, routes[3])]
+    for i, (b, r) in enumerate(combos):
+        n = rng.choice([16, 20, 24])
+        cur = rng.choice([[1e-3], [1e-3], [1e-3, 5e-4], [4e-4, 0, 1.2e-3]])
+        kw = dict(n=n, steps=rng.choice([8, 10, 16]), rot=rng.choice(["0.5", "1"]), outstep=rng.choice([2, 3, 5]), save=rng.choice([1, 2]),
+                  currents=cur, shiftx=rng.choice([0, 1]), shifty=rng.choice([0, -2]), renorm=rng.choice([0, -1]),
+                  padding=rng.choice([2, 4]), gap=rng.choice([0.03, -0.03]), bend=b)
+        kw.update(r)
+        if rng.random() < 0.3:
+            kw["vrf"] = rng.choice([6e5, 1.4e6])       # moderate RF voltage: V0/V_RF larger, the radius matters more
+        c = hc.Cfg(**kw)
+        c.cid, c.imp = "m%d" % i, "machine"
+        out.append(c)
+    return out
+
+
 def close(a, b, tol):
     return abs(a - b) <= tol
 
@@ -390,8 +420,9 @@ def model_text(c, d):
     t = "sched %s.sched %s %s %d %s\n" % (c.cid, hc.zt(c.outstep), hc.zt(c.save), 1 if c.has_wake() else 0, hc.zt(stop))
     t += "dims %s.dims %s %s %s %s %s\n" % (c.cid, hc.zt(nb), hc.zt(n), hc.zt(nmax), hc.zt(imp), hc.zt(np_))
     t += "laststep %s.last %s %s\n" % (c.cid, qtok(Fraction(c.steps)), qtok(Fraction(hc.f32(float(c.rot)))))
-    t += "axis %s.axz %s %s %s\n" % (c.cid, hc.zt(n), qtok(Fraction(12)), qtok(Fraction(hc.f32(c.shiftx))))
-    t += "axis %s.axe %s %s %s\n" % (c.cid, hc.zt(n), qtok(Fraction(12)), qtok(Fraction(hc.f32(c.shifty))))
+    pq = Fraction(hc.f32(c.pqsize)) if c.pqsize is not None else Fraction(12)
+    t += "axis %s.axz %s %s %s\n" % (c.cid, hc.zt(n), qtok(pq), qtok(Fraction(hc.f32(c.shiftx))))
+    t += "axis %s.axe %s %s %s\n" % (c.cid, hc.zt(n), qtok(pq), qtok(Fraction(hc.f32(c.shifty))))
     return t
 
 
@@ -456,7 +487,7 @@ def run(ctx):
               hc.Cfg(n=17, steps=8, rot="1", outstep=3, save=3, currents=[5e-4], gap=-0.03, renorm=-1, shiftx=1, shifty=1.5)]
     for i, c in enumerate(corpus):
         c.cid, c.imp = "c%d" % i, "corpus"
-    cases = corpus + [gen_cfg(ctx.rng, i, ctx.quick()) for i in range(ncfg)]
+    cases = corpus + [gen_cfg(ctx.rng, i, ctx.quick()) for i in range(ncfg)] + machine_cfgs(ctx.seed, ctx.quick())
     for c in cases:
         check_cfg(ctx, tg, c, dis)
     ctx.extra["correspondence_disagreements"] = len(dis)
@@ -473,7 +504,8 @@ def replay(ctx, rp):
     tg = ctx.build(want_binary=True, harness=("h5cat",))
     case = rp.get("case") or {}
     kw = {k: v for k, v in case.items() if k in ("n", "steps", "rot", "outstep", "save", "currents", "shiftx", "shifty", "gap",
-                                                "usecsr", "wallcond", "collimator", "renorm", "tracking", "padding", "cutoff", "extra", "zoom")}
+                                                "usecsr", "wallcond", "collimator", "renorm", "tracking", "padding", "cutoff", "extra", "zoom",
+                                                "bend", "alpha0", "fs", "vrf", "pqsize")}
     c = hc.Cfg(**kw)
     c.cid, c.imp = "replay", "replay"
     dis = []
